@@ -35,8 +35,23 @@ func c01RunReplica(r *simrt.Run, policy int, seed uint64, main bool) (tr *c01Tra
 	defer simrt.SetMapOrder(simrt.MapOrderNative, 0)
 	simrt.MapOrderSites()
 	tr = &c01Trace{}
-	cfg = mkCfg(r, baseWeights(), 50, 200)
+	// half of the runs use the rich world of C02: a spec with add-ons and extensions, providers
+	// with varied endpoints, plan/project policies with (Mixed) chain requirements and selected
+	// providers, so that the pairing filters and slot assignment have several keys to iterate over
+	rich := r.Chance("cfg", 1, 2)
+	w8 := baseWeights()
+	if rich {
+		for k, v := range map[string]int{"c02stake": 8, "c02policy": 10, "c02plan": 3, "c02freeze": 2, "c02epochs": 2} {
+			w8[k] = v
+		}
+	}
+	cfg = mkCfg(r, w8, 50, 200)
 	s := NewSim(r, cfg)
+	if rich {
+		spec := c02RichSpec(r)
+		s.K.Spec.SetSpec(s.Ctx, spec)
+		s.Specs = append(s.Specs, spec)
+	}
 	add := func(label string) {
 		tr.points = append(tr.points, c01Point{label, s.Digest()})
 		sites := simrt.MapOrderSites()
@@ -88,6 +103,25 @@ func c01RunReplica(r *simrt.Run, policy int, seed uint64, main bool) (tr *c01Tra
 			add(fmt.Sprintf("h=%d block", w.Height()))
 		}
 	})
+	if rich {
+		if main {
+			r.Probe("c01_rich_world")
+		}
+		for i := 0; i < 1+r.Draw("ops", 2); i++ {
+			r.Step()
+			s.opC02Plan()
+		}
+		for i := 0; i < 3+r.Draw("ops", 2*len(s.Providers)); i++ {
+			r.Step()
+			s.opC02Stake()
+		}
+		for i := 0; i < len(s.Consumers); i++ {
+			r.Step()
+			s.OpBuy()
+			r.Step()
+			s.opC02Policy()
+		}
+	}
 	s.RunHistory()
 	add("final")
 	return tr, cfg
